@@ -264,3 +264,16 @@ func (s *SS) Feed(p []byte) ([]SSPacket, error) {
 
 // NewSSServerForTest exposes the session constructor.
 func NewSSServerForTest(master []byte) *SS { return newSSServer(master) }
+
+// PacketRaw seals a packet whose header fields are whatever the caller says
+// (for peers that hold the keys but do not follow the packet format).  body is
+// what follows the 5-byte header.
+func (s *SS) PacketRaw(totalField, payloadField int, flags byte, body []byte) []byte {
+	b := make([]byte, SSHdrLen+len(body))
+	binary.BigEndian.PutUint16(b[0:], uint16(totalField))
+	binary.BigEndian.PutUint16(b[2:], uint16(payloadField))
+	b[4] = flags
+	copy(b[5:], body)
+	s.tx.s.XORKeyStream(b, b)
+	return append(h128(s.tx.mac, b), b...)
+}
